@@ -756,3 +756,14 @@ def _fit_result(aggname, keys):
 
 for _n, _k in list(AGGS.items()) + [("all", [])]:
     _fit_result(_n, _k)
+
+
+# the aggregate-interval units also decide the gaussian clauses of C02 (rows aligned with the estimates table, counted
+# votes inside the bounds) and C03 (floors, whole numbers): registered there under their own ids
+from pyvc.api import UNITS  # noqa: E402
+
+for _u in list(UNITS.get("C15", [])):
+    if _u["name"].startswith("aggregate_intervals."):
+        for _p in ("C02", "C03"):
+            if not any(x["name"] == "gaussian." + _u["name"] for x in UNITS.get(_p, [])):
+                UNITS.setdefault(_p, []).append(dict(_u, prop=_p, name="gaussian." + _u["name"]))
